@@ -89,11 +89,15 @@ CreateCache(p) ==      \* iam.created -> reply
     /\ UNCHANGED <<store, gen, loc>>
 
 (* UpdateUserAccount (new secret): store, then in-place cache update if present *)
-UpdateStore(p) ==      \* start -> iam.updated | reply NoSuchUser
+UpdateBegin(p) ==      \* start -> iam.updating : nothing has happened yet
     /\ pc[p] = "start" /\ Op(p) = "update"
+    /\ Invoke(p) /\ Goto(p, "updating") /\ Tick(p)
+    /\ UNCHANGED <<store, cache, gen, loc>>
+UpdateStore(p) ==      \* iam.updating -> iam.updated | reply NoSuchUser
+    /\ pc[p] = "updating"
     /\ IF store = "absent"
-         THEN UNCHANGED store /\ ops' = [ops EXCEPT ![p] = [NoOp EXCEPT !.res = "absent", !.inv = clk + 1, !.ret = clk + 1]] /\ Goto(p, "done")
-         ELSE store' = "a2" /\ Invoke(p) /\ Goto(p, "updated")
+         THEN UNCHANGED store /\ Return(p, [NoOp EXCEPT !.res = "absent"]) /\ Goto(p, "done")
+         ELSE store' = "a2" /\ UNCHANGED ops /\ Goto(p, "updated")
     /\ Tick(p) /\ UNCHANGED <<cache, gen, loc>>
 UpdateCache(p) ==      \* iam.updated -> reply
     /\ pc[p] = "updated"
@@ -103,10 +107,14 @@ UpdateCache(p) ==      \* iam.updated -> reply
     /\ UNCHANGED <<store, loc>>
 
 (* DeleteUserAccount: store, then cache delete *)
-DeleteStore(p) ==      \* start -> iam.deleted
+DeleteBegin(p) ==      \* start -> iam.deleting : nothing has happened yet
     /\ pc[p] = "start" /\ Op(p) = "delete"
-    /\ store' = "absent" /\ Invoke(p) /\ Goto(p, "deleted") /\ Tick(p)
-    /\ UNCHANGED <<cache, gen, loc>>
+    /\ Invoke(p) /\ Goto(p, "deleting") /\ Tick(p)
+    /\ UNCHANGED <<store, cache, gen, loc>>
+DeleteStore(p) ==      \* iam.deleting -> iam.deleted
+    /\ pc[p] = "deleting"
+    /\ store' = "absent" /\ Goto(p, "deleted") /\ Tick(p)
+    /\ UNCHANGED <<cache, gen, loc, ops>>
 DeleteCache(p) ==      \* iam.deleted -> reply
     /\ pc[p] = "deleted"
     /\ cache' = NoEntry
@@ -115,7 +123,7 @@ DeleteCache(p) ==      \* iam.deleted -> reply
     /\ UNCHANGED <<store, loc>>
 
 Step(p) == LookupStart(p) \/ LookupFetch(p) \/ LookupFill(p) \/ CreateStore(p) \/ CreateCache(p)
-           \/ UpdateStore(p) \/ UpdateCache(p) \/ DeleteStore(p) \/ DeleteCache(p)
+           \/ UpdateBegin(p) \/ UpdateStore(p) \/ UpdateCache(p) \/ DeleteBegin(p) \/ DeleteStore(p) \/ DeleteCache(p)
 AllDone == \A p \in Proc : pc[p] = "done"
 
 \* the history in LinKey's vocabulary: a lookup's secret/role are the value's, its
